@@ -22,13 +22,14 @@ type c09Part struct {
 }
 
 type c09Scenario struct {
-	EnableNoResume bool       `json:"enabled_without_resume"`
-	FirstUnmanaged bool       `json:"first_connection_without_sm,omitempty"` // the first server does not offer stream management: stanzas flow, nothing is enabled
-	Client         ClientOpts `json:"client"`
-	Parts          []c09Part  `json:"parts"`
-	Seg            int        `json:"segmentation"`
-	LatencyNs      int64      `json:"latency_ns"`
-	Dawdle         int        `json:"handler_dawdle"`
+	EnableNoResume   bool       `json:"enabled_without_resume"`
+	MandatorySession bool       `json:"server_requires_session,omitempty"`     // legacy session establishment is mandatory on every connection
+	FirstUnmanaged   bool       `json:"first_connection_without_sm,omitempty"` // the first server does not offer stream management: stanzas flow, nothing is enabled
+	Client           ClientOpts `json:"client"`
+	Parts            []c09Part  `json:"parts"`
+	Seg              int        `json:"segmentation"`
+	LatencyNs        int64      `json:"latency_ns"`
+	Dawdle           int        `json:"handler_dawdle"`
 }
 
 func init() {
@@ -100,7 +101,11 @@ func runC09(e *Engine, g G, o RunOpt) RunInfo {
 		}
 		sc.Parts = append(sc.Parts, part)
 	}
+	sc.MandatorySession = g.Pct("mandatory-session", 25)
 	script := DefaultNeg()
+	if sc.MandatorySession {
+		script.Session = SessMandatory
+	}
 	script.SM = !sc.FirstUnmanaged
 	if sc.EnableNoResume {
 		script.Enable = EnableNoResume
@@ -108,6 +113,9 @@ func runC09(e *Engine, g G, o RunOpt) RunInfo {
 	scripts := []NegScript{script}
 	for i := 1; i < len(sc.Parts); i++ {
 		s2 := DefaultNeg()
+		if sc.MandatorySession {
+			s2.Session = SessMandatory
+		}
 		s2.SM = true
 		s2.SMId = fmt.Sprintf("sm-%d", i+1)
 		if sc.Parts[i].ResumeReply == "failed" {
@@ -146,6 +154,8 @@ func runC09(e *Engine, g G, o RunOpt) RunInfo {
 		conn := s.Conn
 		count := 0
 		for pi, part := range sc.Parts {
+			// whatever stanza the server sent after its <enabled/> belongs to the managed session too
+			count += stanzasAfterEnabled(conn)
 			pc := &perConn{conn: conn, part: part, base: conn.End.TotalWritten, startCnt: count}
 			pcs = append(pcs, pc)
 			cli := conn.Pipe.Cli
@@ -271,4 +281,21 @@ func runC09(e *Engine, g G, o RunOpt) RunInfo {
 		e.Probe("c09.history_across_resumption")
 	}
 	return info
+}
+
+// stanzasAfterEnabled counts the stanzas the server has sent on this connection after <enabled/>
+// (replies of negotiation steps the client performs after enabling stream management).
+func stanzasAfterEnabled(c *SrvConn) int {
+	n, on := 0, false
+	for _, r := range c.Sent {
+		d := r.Data
+		if i := strings.Index(d, "<enabled "); i >= 0 && !on {
+			on = true
+			d = d[i+1:]
+		}
+		if on {
+			n += strings.Count(d, "<iq ") + strings.Count(d, "<message") + strings.Count(d, "<presence")
+		}
+	}
+	return n
 }
